@@ -213,7 +213,7 @@ def run(chk):
         terms = [coq_term(c) for c in cmp_cases]
         # one pass: agreement on a modelled input; the (few) others are split into "outside the
         # model" and "mismatch" by a second pass
-        shard = max(1000, -(-len(terms) // 12))
+        shard = min(6000, max(1000, -(-len(terms) // 12)))
         notok, err = vlib.coq_mismatches("c18", IMPORTS, "c18_case", "c18_strict", terms, shard=shard,
                                            scope="uint63_scope")
         badidx, unmod, err2 = None, None, ""
